@@ -257,6 +257,7 @@ deriving DecidableEq, Repr
 structure Out where
   chain    : List Block            -- as broadcast, in order
   times    : List Nat              -- broadcast instant of each block (µs after `Start`)
+  chainAfter : List Block          -- the same block values looked at again at the end of the run
   subs     : List SubOut
   accepted : List (List Bool)      -- per submission, per submitting node: `Transmit` returned nil
   results  : List Rec              -- `Results()` (a Go map: compared in the canonical order of `recLe`)
@@ -419,7 +420,31 @@ def run (inp : Input) (ch : Choices) : Out :=
   let r := feed inp.cadence inp.count 0 {} groups
   let chain := runChain inp ch r.2.2
   { chain := chain, times := (List.range inp.count).map (blockTime inp.cadence),
+    chainAfter := chain,  -- nobody writes to a block once `broadcast` has handed it out
     subs := (List.range inp.nsubs).map (runSub inp ch chain),
     accepted := r.2.1, results := runResults chain r.1 }
+
+/-! ## un-timed `Transmit` ∥ `Load` (the stress cases of the harness) -/
+
+/-- what such a run shows: the answers per round and node, the blocks that got transmits (number,
+    transmits) in the order they were built, and `Results()` -/
+structure StressOut where
+  accepted : List (List Bool)
+  blocks   : List (Nat × List Transmit)
+  results  : List Rec
+deriving DecidableEq, Repr
+
+/-- a schedule of the loader that explains observed blocks: the accepted calls of each block, then
+    its `Load` (refused calls change nothing and are left out) -/
+def stressSchedule (blocks : List (List Transmit)) : List TLOp :=
+  blocks.flatMap fun b => b.map TLOp.submit ++ [TLOp.load]
+
+/-- the model run on that schedule: accepted everywhere, the same blocks, every transmit recorded
+    with the number of its block -/
+def stressReplay (blocks : List (Nat × List Transmit)) : Bool × List (List Transmit) × List Rec :=
+  let r := TL.runOps {} (stressSchedule (blocks.map (·.2)))
+  (r.2.1.all id && r.1.queue.isEmpty, r.2.2,
+   sortBy recLe (r.1.transmitted.map fun t =>
+     { t := t, block := (blocks.find? fun b => b.2.contains t).map (·.1) : Rec }))
 
 end AutoVerif.C19
